@@ -352,7 +352,7 @@ def _gen_ops(rng, n, allow_acquire=True):
 
 def generate(ctx):
     from props._stores_util import ensure_budget
-    ensure_budget(ctx)
+    ensure_budget(ctx, quick_scale=1.5)
     rng = ctx.rng
     # the documented example and its neighbours
     yield "history", {"ops": [["new", None], ["copy", 0, "pickle"], ["copy", 0, "pickle"], ["acquire", 1], ["acquire", 2],
